@@ -57,6 +57,10 @@ const NOOP_INPUTS = [
   ['opt-prototype-receiver', 'function f(X) { return X?.prototype.trim() }\n'],
   ['use-strict-only', "'use strict'\nfunction f() { 'use strict'; return 1 }\n"],
   ['class-fields-top-level', 'class K { static s = 1; p = 2; #q = 3; m() { return this.#q } }\n'],
+  // shapes of files that invite special treatment: one-line bundles of tens of kilobytes (with and without anything to instrument)
+  ['minified-bundle-nothing-to-do', Array.from({ length: 1100 }, (_, i) => `var m${i}=function(a,b){return a*b-${i}};`).join('')],
+  ['minified-bundle-with-operations', Array.from({ length: 1100 }, (_, i) => `var m${i}=function(a,b){return a+b.trim()};`).join('')],
+  ['minified-two-long-lines', Array.from({ length: 700 }, (_, i) => `var n${i}=function(a){return a-${i}};`).join('') + '\n' + Array.from({ length: 700 }, (_, i) => `var o${i}=function(a){return a+"${i}"};`).join('')],
   ['large-unmodified', 'function big() {\n' + Array.from({ length: 4000 }, (_, i) => `  const v${i} = ${i} * 2 - 1;`).join('\n') + '\n  return 0\n}\n']
 ]
 
@@ -83,6 +87,7 @@ function check (job, resp, prefix, wrapper) {
   if (k !== 'ok-modified' && k !== 'ok-notmodified') return { out, violations }
   const ok = resp.ok
   if (!ok.metrics) push('no-metrics', 'result without metrics/status')
+  else if (ok.metrics.status !== 'modified' && ok.metrics.status !== 'notmodified') push('unknown-status', `the result is reported as ${JSON.stringify(ok.metrics.status)}: neither modified nor notmodified`)
   // package-level wrapper
   wrapper.setNative(() => JSON.parse(JSON.stringify({ content: ok.content, metrics: ok.metrics, literalsResult: ok.literalsResult })))
   const viaPkg = new wrapper.exports.NonCacheRewriter({}).rewrite(job.code, job.file || '/app/src/prog.js')
@@ -126,7 +131,7 @@ function check (job, resp, prefix, wrapper) {
 function runHistory (spec, ctx) {
   const rng = new Rng(ctx.seed, 'c12hist', spec.stream)
   const base = structJobs({ kind: 'random', count: 24, stream: 1200 + spec.stream, cfgNames: ['FULL'] }, ctx).map(j => j.code)
-  const plain = NOOP_INPUTS.filter(x => !['empty', 'large-unmodified', 'hashbang', 'bom'].includes(x[0])).map(x => x[1])
+  const plain = NOOP_INPUTS.filter(x => !['empty', 'large-unmodified', 'hashbang', 'bom'].includes(x[0]) && !/^minified-/.test(x[0])).map(x => x[1])
   const variants = plain.concat(plain.map(t => t.replace(/[a-z]/, c => c.toUpperCase())), plain.map(t => t.replace(/return/, 'return ')), base)
   const L = Math.max(...variants.map(t => t.length)) + 8
   const texts = variants.map(t => { const body = t.replace(/\n*$/, '\n'); return body + '//' + 'p'.repeat(L - body.length - 2) })
@@ -192,7 +197,7 @@ module.exports = {
       js = []
       for (let i = 0; i < spec.count; i++) {
         const r = rng.fork(i)
-        const noop = r.bool(0.25) ? r.pick(NOOP_INPUTS.filter(x => !['empty', 'large-unmodified'].includes(x[0]))) : null
+        const noop = r.bool(0.25) ? r.pick(NOOP_INPUTS.filter(x => !['empty', 'large-unmodified'].includes(x[0]) && !/^minified-/.test(x[0]))) : null
         const b = noop ? { code: noop[1], meta: { noop: noop[0] } } : r.pick(base)
         const file = r.pick(['/srv/app/dist/gen.js', '/srv/app/x.js', 'x.js', '/x.js'])
         const ref = G.mapReference(r, file)
